@@ -197,6 +197,9 @@ class LighthouseConfigWriter:
     def _received_location_packet(self, packet):
         # New geo data has been written and stored in the CF
         if packet.type == self._cf.loc.LH_PERSIST_DATA:
+            if not packet.data:
+                # The Crazyflie reports that the data could not be persisted
+                self._write_failed_for_one_or_more_objects = True
             self._next()
 
     def _prepare_geos(self, geos):
